@@ -394,6 +394,9 @@ def _run_prog(case, ctx):
            "insert": ("none" if ins is None else "start" if list(ins) == [""] else "split" if len(ins) > 1
                       else "after-removed" if list(ins)[0] in rep else "after-retained")}
     call = ("reparameterize(%r, %r, %r, name=%r, insert_after=%r)" % (base, tpl["rows"], tpl["text"], name, ins))
+    where = ""
+    if base.startswith("@"):
+        where = "\n  where %s is the generated plug-in model:\n%s" % (base, open(ctx.notes[base]).read())
     r.branch("template:" + case["template"])
     r.branch("insert:" + fk0["insert"])
     r.branch("base:" + base)
@@ -408,14 +411,14 @@ def _run_prog(case, ctx):
     except TypeError as exc:
         if splits:
             return r.ok(nt=True, outcome="refused-orientation-split", branches=["refused-orientation-split"])
-        r.fail("%s raised %r" % (call, exc), dict(fk0, clause="build"))
+        r.fail(("%s raised %r" % (call, exc)) + where, dict(fk0, clause="build"))
         return r
     except Exception as exc:  # noqa
-        r.fail("%s raised %r" % (call, exc), dict(fk0, clause="build"))
+        r.fail(("%s raised %r" % (call, exc)) + where, dict(fk0, clause="build"))
         return r
     if splits:
-        r.fail("%s: new parameters separate the orientation angles, yet the table was accepted: %s"
-               % (call, [p.id for p in dinfo.parameters.kernel_parameters]), dict(fk0, clause="orientation-split-accepted"))
+        r.fail(("%s: new parameters separate the orientation angles, yet the table was accepted: %s"
+               % (call, [p.id for p in dinfo.parameters.kernel_parameters])) + where, dict(fk0, clause="orientation-split-accepted"))
         return r
     # ---- table
     bpars = binfo.parameters.kernel_parameters
@@ -428,19 +431,19 @@ def _run_prog(case, ctx):
         if any(len(x) == 1 for x in left):
             # one finding, whatever the template / placement
             fk = {"clause": "table-replaced-left", "base": base, "one_letter_parameter": True}
-        r.fail("%s\n  derived table order %s, documented arrangement %s%s"
-               % (call, got_order, want_order, ("; replaced parameter(s) %s still present" % left) if left else ""), fk)
+        r.fail(("%s\n  derived table order %s, documented arrangement %s%s"
+               % (call, got_order, want_order, ("; replaced parameter(s) %s still present" % left) if left else "")) + where, fk)
         return r
     bsig = {p.id: _psig(p) for p in bpars}
     for p in dpars:
         if p.id in bsig and _psig(p) != bsig[p.id]:
-            r.fail("%s\n  untouched parameter changed: %s -> %s" % (call, bsig[p.id], _psig(p)),
+            r.fail(("%s\n  untouched parameter changed: %s -> %s" % (call, bsig[p.id], _psig(p))) + where,
                    dict(fk0, clause="table-untouched"))
             return r
     for row in tpl["rows"]:
         p = [q for q in dpars if q.id == row[0]][0]
         if (p.default, tuple(p.limits), p.type) != (row[2], tuple(row[3]), row[4]):
-            r.fail("%s\n  new parameter %s has %s" % (call, row, _psig(p)), dict(fk0, clause="table-new"))
+            r.fail(("%s\n  new parameter %s has %s" % (call, row, _psig(p))) + where, dict(fk0, clause="table-new"))
             return r
     r.ok(nt=True, outcome="table-ok", branches=["table-checked"])
     try:
@@ -452,7 +455,7 @@ def _run_prog(case, ctx):
         if isinstance(binfo.Iq, str):
             # base model whose functions are given as C bodies in the definition: one finding per base model
             fk = {"clause": "build", "base": base, "inline_c_functions": True}
-        r.fail("%s could not be built: %r" % (call, exc), fk, branches=["build-failed"])
+        r.fail(("%s could not be built: %r" % (call, exc)) + where, fk, branches=["build-failed"])
         return r
 
     # ---- values
@@ -536,7 +539,7 @@ def _run_prog(case, ctx):
                 I = call_kernel(kern["d", dim], dict(pars), cutoff=cutoff)
                 F1, F2, reff, vshell, vratio = call_Fq(kern["d", dim], dict(pars, radius_effective_mode=mode), cutoff=cutoff)
         except Exception as exc:  # noqa
-            r.fail("%s raised %r" % (desc, exc), dict(fk, clause="raises"), sub={"cfg": cfg}, branches=br)
+            r.fail(("%s raised %r" % (desc, exc)) + where, dict(fk, clause="raises"), sub={"cfg": cfg}, branches=br)
             continue
         checks = [("I", I, ref["I"], ref["mag"]), ("F2", F2, ref["F2"], ref.get("magF2")),
                   ("vshell", vshell, ref["vshell"], None),
@@ -552,8 +555,8 @@ def _run_prog(case, ctx):
                 msgs.append("%s: derived model %s, base at translated parameters %s" % (nm, np.asarray(a), np.asarray(b)))
         nt = bool(moved[0] and (ref["nqual"] >= 2 or not disp))
         if msgs:
-            r.fail(desc + "\n  " + "\n  ".join(msgs) + "\n  mesh %d points, %d qualifying, %d cut, %d invalid in the base model"
-                   % (ref["npoints"], ref["nqual"], ref["ncut"], ref["ninvalid"]), fk, sub={"cfg": cfg}, nt=nt,
+            r.fail((desc + "\n  " + "\n  ".join(msgs) + "\n  mesh %d points, %d qualifying, %d cut, %d invalid in the base model"
+                   % (ref["npoints"], ref["nqual"], ref["ncut"], ref["ninvalid"])) + where, fk, sub={"cfg": cfg}, nt=nt,
                    trans=2 + ref["npoints"], branches=br)
             continue
         r.ok(nt=nt, outcome="%s:%s:q%d:c%d:i%d" % ("pd" if disp else "mono", dim, min(ref["nqual"], 3),
